@@ -130,6 +130,12 @@ CHECKS = {
             'and bounds = closed-form incremental effect and posterior quantiles. A container ValueError is accepted as the '
             'known first-difference-bounds finding only when the closed-form cumulative scale decreases on some day.',
             '§5 C18'),
+    'C19': ('set-arithmetic oracle on the raw frame + own group-by; row-permutation run pair',
+            'On generated experiment frames (planted or absent noisy geos and outlier dates, <4 geos, custom column names and '
+            'labels, unassigned geos, shuffled rows, shifted index) the real TBRDiagnostics.fit is run; get_data() must equal '
+            'the input rows minus the rows of the reported noisy geos and outlier dates (order, columns and index included), '
+            'get_analysis_data() the per-date control / treatment totals of that screened data, the caller frame must be '
+            'unchanged and a row permutation must report the same results.', '§5 C19'),
 }
 
 NOT_YET = {}
